@@ -308,8 +308,15 @@ func (w *world) inconclusive(s string) {
 	// nor a violation; the parent makes the run inconclusive when there are more than a
 	// handful of them (see main).
 	w.e.run.Count("undecided_scenarios", 1)
-	if undecidedShown.Add(1) <= 3 {
-		w.e.run.Set(fmt.Sprintf("undecided_example_b%d_%d", w.e.batch, undecidedShown.Load()), fmt.Sprintf("%s (%s, %.1fs into the child): %s", w.tag, w.e.class, time.Since(childStart).Seconds(), s))
+	if n := undecidedShown.Add(1); n <= 3 {
+		tail := ""
+		if b, err := os.ReadFile(w.e.srv.LogFile); err == nil {
+			if len(b) > 1200 {
+				b = b[len(b)-1200:]
+			}
+			tail = string(b)
+		}
+		w.e.run.Set(fmt.Sprintf("undecided_example_b%d_%d", w.e.batch, n), fmt.Sprintf("%s (%s, %.1fs into the child): %s; end of the server's log: %s", w.tag, w.e.class, time.Since(childStart).Seconds(), s, tail))
 	}
 	// for the post-mortem (the check's --keep): where is everybody?
 	dumpOnce.Do(func() {
